@@ -598,30 +598,39 @@ def part_legacy(ctx, texts=None):
 
 
 def part_client(ctx, labelled, results_by_text):
-    """the anchored client (hip_ra_x/__init__.py) returns what the direct run printed."""
+    """the anchored entry point: HipRaXClient -> hip_ra_x.main() (which swallows an exception of Calculate and prints
+    anyway) writes the report the direct read/Calculate/PrintOutputs sequence wrote, and returns its parse."""
     from hip_ra import HipRaInputParameters
     from hip_ra_x import HipRaXClient
     import contextlib, io, logging
     logging.disable(logging.CRITICAL)
-    client, n = HipRaXClient(), 0
+    client, n_ok, n_err, quota = HipRaXClient(), 0, 0, ctx.n(3, 20)
     for label, text in labelled:
         r = results_by_text[text]
-        if r.get('read_error') or r['calc_error'] or not r.get('report'):
+        err = bool(r.get('calc_error'))
+        if r.get('read_error') or not r.get('report') or (n_err if err else n_ok) >= quota:
             continue
-        p = ctx.scratch / f'client_{n}.txt'
+        p = ctx.scratch / f'client_{n_ok + n_err}.txt'
         p.write_text(text)
-        with contextlib.redirect_stdout(io.StringIO()), contextlib.redirect_stderr(io.StringIO()):
-            res = client.get_hip_ra_result(HipRaInputParameters(str(p)))
-        direct = hiprun.parse_report(r['report'])
-        for k, (tok, _) in direct.items():
-            got = res.result.get(k, {}).get('value')
-            if got is None or got != float(tok):
-                ctx.violate('corr', f'client:{k}', f'HipRaXClient result {k!r} = {got!r} but the report of the same input prints {tok}',
-                            inp={'kind': 'client', 'text': text}, expected=tok, observed=got)
-        n += 1
-        if n >= ctx.n(4, 25):
-            break
-    ctx.count('client', evaluations=n)
+        inp = {'kind': 'client', 'text': text}
+        try:
+            with contextlib.redirect_stdout(io.StringIO()), contextlib.redirect_stderr(io.StringIO()):
+                res = client.get_hip_ra_result(HipRaInputParameters(str(p)))
+        except Exception as e:
+            ctx.violate('corr', 'client:main-raises' + (':after-calculate-error' if err else ''),
+                        f'HipRaXClient/main() raised {type(e).__name__}: {str(e)[:160]} where the model of main() prints a report', inp=inp)
+            continue
+        with open(res.output_file_path, encoding='UTF-8') as f:
+            via_main = f.read()
+        if via_main != r['report']:
+            ctx.violate('corr', 'client:main-report-differs' + (':after-calculate-error' if err else ''),
+                        'the report written through HipRaXClient/main() differs from the one of read_parameters/Calculate/PrintOutputs',
+                        inp=inp, expected=r['report'][-300:], observed=via_main[-300:])
+        got = [(k, float(v['value']).hex(), v['unit']) for k, v in res.result.items()]
+        if got != [tuple(x) for x in r.get('client', [])]:
+            ctx.violate('corr', 'client:result-differs', 'HipRaXClient returned a different parse than HipRaResult on the same report', inp=inp)
+        n_ok, n_err = n_ok + (not err), n_err + err
+    ctx.count('client', evaluations=n_ok + n_err, through_main_after_exception=n_err)
 
 
 # ------------------------------------------------------------------------------------------------
@@ -696,7 +705,7 @@ def replay(ctx, data):
         part_legacy(ctx, [text])
         print('legacy hip_ra on this input:', [v.key for v in ctx.violations] or 'agrees with the common model and the report string model')
         return 1 if ctx.violations else 0
-    if kind == 'report':
+    if kind in ('report', 'client'):
         part_report(ctx, [('replay', text)], [hiprun.run_case(text, str(ctx.scratch))])
         print('input:\n' + text + 'report / client parse vs string model:', [v.key for v in ctx.violations] or 'agree')
         return 1 if ctx.violations else 0
